@@ -648,6 +648,10 @@ pub fn run(cfg: &Cfg) -> Report {
                 if rng.chance(1, 5) {
                     b.scn.coop = rng.range(1, 9) as u32;
                 }
+                // every sixth scenario: the service suspends inside handle() (an arrival or a stream item may become ready meanwhile)
+                if rng.chance(1, 6) {
+                    b.scn.handle_yields = rng.range(1, 2) as u8;
+                }
                 let total = count_interleavings(&b.chains.iter().map(|c| c.len()).collect::<Vec<_>>());
                 let cap = if miri { 4 } else if small { 6 } else { 300 };
                 if total <= cap && k % 2 == 0 {
